@@ -16,6 +16,7 @@ import (
 
 	sdkmath "cosmossdk.io/math"
 	codectypes "github.com/cosmos/cosmos-sdk/codec/types"
+	"github.com/cosmos/cosmos-sdk/x/authz"
 	sdk "github.com/cosmos/cosmos-sdk/types"
 	authcodec "github.com/cosmos/cosmos-sdk/x/auth/codec"
 	params2 "github.com/palomachain/paloma/v2/app/params"
@@ -334,7 +335,7 @@ func classify(err error, panicked bool, sale bool) int64 {
 	switch {
 	case errors.Is(err, errInjected) || strings.Contains(msg, errInjected.Error()):
 		return 18
-	case strings.Contains(msg, "no signature from granted address found"):
+	case strings.Contains(msg, "no signature from granted address found") || strings.Contains(msg, "messages nested more than"):
 		return 10
 	case errors.Is(err, palomatypes.ErrInvalidParameters):
 		return 2
@@ -410,6 +411,7 @@ type txmsg struct {
 	amt     *big.Int
 	months  uint32
 	signers []int // metadata.signers: the signatures the transaction carries for this message
+	nest    int   // wrapped in that many authz.MsgExec whose grantee is the (single) signer
 }
 
 func (m txmsg) coq() string {
@@ -420,7 +422,7 @@ func (m txmsg) coq() string {
 	} else {
 		body = fmt.Sprintf("(TOp %s)", o.plain())
 	}
-	return fmt.Sprintf("{| tm_signers := %s; tm_body := %s |}", zl(m.signers), body)
+	return fmt.Sprintf("{| tm_signers := %s; tm_nest := %d; tm_body := %s |}", zl(m.signers), m.nest, body)
 }
 
 // coq: the history operation (LightNodeExt.hop)
@@ -582,6 +584,10 @@ func (w *world) apply(o op) int64 {
 			default:
 				panic("tx message kind " + m.kind)
 			}
+			for d := 0; d < m.nest; d++ {
+				x := authz.NewMsgExec(w.addrs[m.signers[0]], []sdk.Msg{sdkMsgs[i]})
+				sdkMsgs[i] = &x
+			}
 		}
 		err, p := e.deliver(func(ctx context.Context) error {
 			sctx := sdk.UnwrapSDKContext(ctx)
@@ -599,6 +605,8 @@ func (w *world) apply(o op) int64 {
 					_, err = e.msg.AuthLightNodeClient(ctx, x)
 				case *palomatypes.MsgAddStatusUpdate:
 					_, err = e.msg.AddStatusUpdate(ctx, x)
+				case *authz.MsgExec:
+					_, err = e.authz.Exec(ctx, x) // the real x/authz keeper and message router
 				}
 				if err != nil {
 					return err
@@ -839,6 +847,10 @@ func (g *gen) genTx() op {
 		}
 		if g.hostile && r.Intn(12) == 0 {
 			m.a.id = -1
+		}
+		if len(m.signers) == 1 && r.Intn(3) == 0 {
+			// inside 1..9 authz.MsgExec with the signer as grantee: around the decorator's limit
+			m.nest = []int{1, 2, 5, 6, 6, 7, 7, 7, 8, 9}[r.Intn(10)]
 		}
 		o.msgs = append(o.msgs, m)
 	}
